@@ -182,6 +182,8 @@ fn par_lattice_bal(n: usize, d: u32, f: impl Fn(&[i64]) + Sync) {
     });
 }
 const MAPS: [&str; 5] = ["signed", "dense", "fractional", "scaled-up-down", "scaled-up-up"];
+/// names of all maps of `aff` (second audit round: 5 and 6 straddle the `epsilon()` = 2^-52 of the exact type)
+const MAPN: [&str; 7] = ["signed", "dense", "fractional", "scaled-up-down", "scaled-up-up", "tiny-huge", "tiny-tiny"];
 fn p2(e: i32) -> X { if e >= 0 { qi(1i128 << e) } else { q(1, 1i128 << (-e)) } }
 fn dense_i(idx: usize, a: i64) -> i64 { [1, -2, 3, -1, 2][idx % 5] + [-1, 2, -3, 1][idx % 4] * a }
 /// affine image of the lattice value `a` of coordinate `idx`; `op`: 0 = first operand, 1 = second, 2 = third
@@ -191,7 +193,9 @@ fn aff(map: usize, idx: usize, a: i64, op: usize) -> X {
         1 => qi(dense_i(idx, a) as i128),
         2 => q([1, -3, 5, -7][idx % 4], 2) + q([2, -1, 4][idx % 3], 3) * qi(a as i128),
         3 => qi(dense_i(idx, a) as i128) * p2(if op % 2 == 0 { 40 } else { -40 }),
-        _ => qi(dense_i(idx, a) as i128) * p2(40),
+        4 => qi(dense_i(idx, a) as i128) * p2(40),
+        5 => qi(dense_i(idx, a) as i128) * p2(if op % 2 == 0 { -60 } else { 60 }),
+        _ => qi(dense_i(idx, a) as i128) * p2(-60),
     }
 }
 fn arrm<const N: usize>(map: usize, a: &[i64], off: usize, op: usize) -> A<X, N> { let mut m = [[qi(0); N]; N]; for i in 0..N { for j in 0..N { m[i][j] = aff(map, off + i * N + j, a[i * N + j], op); } } m }
@@ -214,7 +218,7 @@ where
             let nz = nzm(&aa) && nzm(&bb);
             if has_neg(&want) { negres.fetch_add(1, std::sync::atomic::Ordering::Relaxed); }
             let w: u64 = a.iter().sum::<i64>() as u64;
-            let inp = || json!({"map": MAPS[map], "A": jmat(&aa), "B": jmat(&bb)});
+            let inp = || json!({"map": MAPN[map], "A": jmat(&aa), "B": jmat(&bb)});
             let (ra, rb, ca, cb) = (R::build(&aa), R::build(&bb), C::build(&aa), C::build(&bb));
             let chk = |site: &str, got: Option<A<X, N>>| {
                 s.eval(nz);
@@ -226,12 +230,12 @@ where
             chk("col*row->row", s.call("col*row", inp, || (ca * rb).decode()));
             chk("row*=row", s.call("row*=row", inp, || { let mut m = ra; m *= rb; m.decode() }));
             chk("col*=col", s.call("col*=col", inp, || { let mut m = ca; m *= cb; m.decode() }));
-            if map == 1 && w == d as u64 && s.wants_sample() { s.sample(json!({"N": N, "map": MAPS[map], "A": jmat(&aa), "B": jmat(&bb), "A*B": jmat(&want), "forms_checked": 6})); }
+            if map == 1 && w == d as u64 && s.wants_sample() { s.sample(json!({"N": N, "map": MAPN[map], "A": jmat(&aa), "B": jmat(&bb), "A*B": jmat(&want), "forms_checked": 6})); }
         });
-        s.class_n(MAPS[map], lattice_count(2 * nn, d) as u64);
+        s.class_n(MAPN[map], lattice_count(2 * nn, d) as u64);
     }
     s.class_n("negative-result-entry", negres.into_inner());
-    s.meta("lattice", json!({"order": d, "points_per_map": lattice_count(2 * nn, d).to_string(), "maps": maps.iter().map(|&m| MAPS[m]).collect::<Vec<_>>()}));
+    s.meta("lattice", json!({"order": d, "points_per_map": lattice_count(2 * nn, d).to_string(), "maps": maps.iter().map(|&m| MAPN[m]).collect::<Vec<_>>()}));
 }
 
 /// matrix*column-vector and row-vector*matrix on affine images of L(N^2+N, d)
@@ -248,7 +252,7 @@ where
             let (want_mv, want_vm) = (mvec(&aa, &vv), vmat(&vv, &aa));
             let nz = nzm(&aa) && vv.iter().any(|v| !v.is_zero());
             let w: u64 = a.iter().sum::<i64>() as u64;
-            let inp = || json!({"map": MAPS[map], "M": jmat(&aa), "v": jxs(&vv)});
+            let inp = || json!({"map": MAPN[map], "M": jmat(&aa), "v": jxs(&vv)});
             let (r, c, v) = (R::build(&aa), C::build(&aa), V::build(&vv));
             let chk = |site: &str, got: Option<[X; N]>, want: &[X; N]| {
                 s.eval(nz);
@@ -258,9 +262,9 @@ where
             chk("col-major M*v", s.call("col M*v", inp, || (c * v).decode()), &want_mv);
             chk("v*row-major M", s.call("v*row M", inp, || (v * r).decode()), &want_vm);
             chk("v*col-major M", s.call("v*col M", inp, || (v * c).decode()), &want_vm);
-            if map == 2 && w == d as u64 && s.wants_sample() { s.sample(json!({"N": N, "map": MAPS[map], "M": jmat(&aa), "v": jxs(&vv), "M*v": jxs(&want_mv), "v*M": jxs(&want_vm)})); }
+            if map == 2 && w == d as u64 && s.wants_sample() { s.sample(json!({"N": N, "map": MAPN[map], "M": jmat(&aa), "v": jxs(&vv), "M*v": jxs(&want_mv), "v*M": jxs(&want_vm)})); }
         });
-        s.class_n(MAPS[map], lattice_count(nn + N, d) as u64);
+        s.class_n(MAPN[map], lattice_count(nn + N, d) as u64);
     }
     s.meta("lattice", json!({"order": d, "points_per_map": lattice_count(nn + N, d).to_string()}));
 }
@@ -282,7 +286,7 @@ where
             let (want_vab, want_abv) = (vmat(&vmat(&vv, &aa), &bb), mvec(&aa, &mvec(&bb, &vv)));
             let nz = nzm(&aa) && nzm(&bb) && nzm(&cc);
             let w: u64 = a.iter().sum::<i64>() as u64;
-            let inp = || json!({"map": MAPS[map], "A": jmat(&aa), "B": jmat(&bb), "C": jmat(&cc), "v": jxs(&vv)});
+            let inp = || json!({"map": MAPN[map], "A": jmat(&aa), "B": jmat(&bb), "C": jmat(&cc), "v": jxs(&vv)});
             let (ra, rb, rc, ca, cb, cc_, v) = (R::build(&aa), R::build(&bb), R::build(&cc), C::build(&aa), C::build(&bb), C::build(&cc), V::build(&vv));
             let chk = |site: &str, got: Option<A<X, N>>| {
                 s.eval(nz);
@@ -314,11 +318,11 @@ where
             chkv("col (A*B)*v", s.call("col (A*B)*v", inp, || ((ca * cb) * v).decode()), &want_abv);
             chkv("mixed (colA*rowB)*v", s.call("mixed (colA*rowB)*v", inp, || ((ca * rb) * v).decode()), &want_abv);
             chkv("mixed rowA*(colB*v)", s.call("mixed rowA*(colB*v)", inp, || (ra * (cb * v)).decode()), &want_abv);
-            if map == 1 && w == d as u64 && s.wants_sample() { s.sample(json!({"N": N, "map": MAPS[map], "A": jmat(&aa), "B": jmat(&bb), "C": jmat(&cc), "A*B*C": jmat(&abc), "forms_checked": 22})); }
+            if map == 1 && w == d as u64 && s.wants_sample() { s.sample(json!({"N": N, "map": MAPN[map], "A": jmat(&aa), "B": jmat(&bb), "C": jmat(&cc), "A*B*C": jmat(&abc), "forms_checked": 22})); }
         });
-        s.class_n(MAPS[map], lattice_count(3 * nn, d) as u64);
+        s.class_n(MAPN[map], lattice_count(3 * nn, d) as u64);
     }
-    s.meta(&format!("lattice N={} D={}", N, d), json!({"points_per_map": lattice_count(3 * nn, d).to_string(), "maps": maps.iter().map(|&m| MAPS[m]).collect::<Vec<_>>()}));
+    s.meta(&format!("lattice N={} D={}", N, d), json!({"points_per_map": lattice_count(3 * nn, d).to_string(), "maps": maps.iter().map(|&m| MAPN[m]).collect::<Vec<_>>()}));
 }
 /// degree premise of the sequences (triple product and chained `*=`): measured, must be <= 3
 fn deg_seq<const N: usize, R, C>(s: &Section) -> u32
@@ -352,7 +356,7 @@ where M: MatIO<X, N> + Copy + Send + Sync + Mul<M, Output = M> + MulAssign<M> + 
             let w: u64 = a.iter().sum::<i64>() as u64;
             let mut refs: Vec<A<X, N>> = vec![ident::<X, N>()];
             for k in 1..=kmax { let p = mmul(&refs[k - 1], &aa); refs.push(p); }
-            let inp = || json!({"map": MAPS[map], "M": jmat(&aa)});
+            let inp = || json!({"map": MAPN[map], "M": jmat(&aa)});
             if let Some(steps) = s.call("I; repeat *= M", inp, || { let mut acc = id; let mut out = vec![acc.decode()]; for _ in 1..=kmax { acc *= m; out.push(acc.decode()); } out }) {
                 for k in 0..=kmax { s.eval(nzm(&aa) && k > 1); if steps[k] != refs[k] {
                     s.violation_w(&format!("Mat{}<{}> identity() then {}x `*= M`", N, lay, k), "wrong-power", json!({"input": inp(), "got": jmat(&steps[k]), "want": jmat(&refs[k])}), w + k as u64); } }
@@ -363,7 +367,7 @@ where M: MatIO<X, N> + Copy + Send + Sync + Mul<M, Output = M> + MulAssign<M> + 
                     s.violation_w(&format!("Mat{}<{}> num_traits::pow(M,{})", N, lay, k), "wrong-power", json!({"input": inp(), "got": jmat(&g), "want": jmat(&refs[k])}), w + k as u64); } }
             }
         });
-        s.class_n(MAPS[map], lattice_count(N * N, d) as u64);
+        s.class_n(MAPN[map], lattice_count(N * N, d) as u64);
     }
 }
 
@@ -387,7 +391,7 @@ fn ew_values<const N: usize, M: MatOps + MatIO<X, N>>(s: &Section, d: u32, lay: 
     let bs: Vec<A<X, N>> = (0..3usize).map(|k| { let mut m = [[qi(0); N]; N]; for i in 0..N { for j in 0..N {
         let v = [3, -2, 5, -7, 4, -1, 6][(i * N + j + 2 * k) % 7]; m[i][j] = if k == 2 { q(v, 2 + ((i + j) % 2) as i128) } else { qi(v) }; } } m }).collect();
     let mut mats: Vec<(A<X, N>, &'static str, u64)> = Vec::new();
-    lattice(N * N, d, |p| for map in 0..3 { mats.push((arrm::<N>(map, p, 0, 0), MAPS[map], p.iter().sum::<i64>() as u64)); });
+    lattice(N * N, d, |p| for map in 0..3 { mats.push((arrm::<N>(map, p, 0, 0), MAPN[map], p.iter().sum::<i64>() as u64)); });
     mats.push((zeros::<X, N>(), "zero-matrix", 0)); mats.push((ident::<X, N>(), "identity-matrix", N as u64));
     { let mut m = ident::<X, N>(); for i in 0..N { m[i][i] = qi(-1); } mats.push((m, "neg-identity", N as u64)); }
     { let mut m = ident::<X, N>(); m[N - 1][0] = qi(1); mats.push((m, "identity-plus-one-entry", N as u64 + 1)); }
@@ -462,7 +466,7 @@ where
             let (mr, mc, v) = (R::build(&aa), C::build(&aa), V::build(&vv));
             let w: u64 = a.iter().sum::<i64>() as u64;
             let nz = nzm(&aa);
-            let inp = || json!({"map": MAPS[map], "M": jmat(&aa), "v": jxs(&vv)});
+            let inp = || json!({"map": MAPN[map], "M": jmat(&aa), "v": jxs(&vv)});
             let chk = |lay: &str, form: &str, how: &str, got: Option<A<X, N>>| {
                 s.eval(nz);
                 if let Some(g) = got { if g != aa { s.violation_w(&format!("Mat{}<{}> {} [I={}]", N, lay, form, how), "identity-not-neutral", json!({"input": inp(), "got": jmat(&g)}), w); } }
@@ -490,7 +494,7 @@ where
                 chkv("col", "v*I", how, s.call("v*I", inp, || (v * ic).decode()));
             }
         });
-        s.class_n(MAPS[map], lattice_count(nn + N, d) as u64);
+        s.class_n(MAPN[map], lattice_count(nn + N, d) as u64);
     }
 }
 
@@ -680,6 +684,470 @@ where T: Copy + PartialEq + std::fmt::Debug + Send + Sync + Add<Output = T> + Mu
     s.class_n(tname, lattice_count(8, d) as u64 * scales.len() as u64);
 }
 
+// =====================================================================================================
+// Second audit round (adversarial).  The sections above already decide every branch-free slip: the code is
+// generic in T, so a structural change shows on the free terms, and a polynomial one on the lattices.  What can
+// still hide is a *value-dependent* path whose guard a free term never satisfies (`==`, `is_zero`, `is_one`) and
+// whose witnesses lie outside the sparse / independent alphabets above:
+//   * relations BETWEEN the operands (equal, negated, transposed, one entry apart) with every entry non-zero,
+//   * special operands of high lattice weight (permutations, scalar matrices, all-equal, triangular, affine
+//     bottom row / last column, near-identity) against dense partners and against each other,
+//   * magnitudes on the far side of the exact type's `epsilon()` = 2^-52 (maps 5, 6 of `aff`, 2^-60 entries),
+//   * guards that only change the result in integer or float semantics (x * (1/s) is x/s over the rationals):
+//     the scalar / element-wise operators never ran at a primitive element type,
+//   * the type bounds (results equal to MIN / MAX with every defining product and partial sum representable),
+//     the remaining primitive types, float scalings up to 2^+-60 (f32) / 2^+-500 (f64) and subnormal results.
+// =====================================================================================================
+use std::num::Wrapping;
+
+fn perms(n: usize) -> Vec<Vec<usize>> { signed_permutations(n).into_iter().map(|(p, _)| p).collect() }
+/// fixed dense matrices: every entry non-zero, not symmetric; k = 2 is fractional (halves and thirds)
+fn dense_fixed<const N: usize>(k: usize) -> A<X, N> {
+    let pat = [3, -2, 5, -7, 4, -1, 6, 2, -5, 7, -3, 8, -4, 9, -6, 1];
+    let mut m = [[qi(0); N]; N];
+    for i in 0..N { for j in 0..N { let v = pat[(i * N + j + 5 * k) % 16]; m[i][j] = if k == 2 { q(v, 2 + ((i + 2 * j) % 2) as i128) } else { qi(v) }; } }
+    m
+}
+fn scale_m<const N: usize>(m: &A<X, N>, f: X) -> A<X, N> { let mut o = *m; for i in 0..N { for j in 0..N { o[i][j] = m[i][j] * f; } } o }
+fn unit<const N: usize>(i: usize, j: usize, v: X) -> A<X, N> { let mut m = zeros::<X, N>(); m[i][j] = v; m }
+fn add_m<const N: usize>(a: &A<X, N>, b: &A<X, N>) -> A<X, N> { let mut o = *a; for i in 0..N { for j in 0..N { o[i][j] = a[i][j] + b[i][j]; } } o }
+fn support<const N: usize>(m: &A<X, N>) -> u64 { m.iter().flatten().filter(|v| !v.is_zero()).count() as u64 }
+
+/// special-structured matrices (the special values a fast path or guard would be keyed on)
+fn structured<const N: usize>() -> Vec<(A<X, N>, &'static str)> {
+    let (d0, d1, d2) = (dense_fixed::<N>(0), dense_fixed::<N>(1), dense_fixed::<N>(2));
+    let id = ident::<X, N>();
+    let mut v: Vec<(A<X, N>, &'static str)> = vec![(zeros::<X, N>(), "zero"), (id, "identity")];
+    for k in [qi(-1), qi(2), qi(-3), q(1, 2)] { v.push((scale_m(&id, k), "scalar-matrix")); }
+    { let mut m = zeros::<X, N>(); for i in 0..N { m[i][i] = qi([1, -2, 3, -4][i]); } v.push((m, "diagonal")); }
+    { let mut m = zeros::<X, N>(); for i in 0..N { m[i][i] = qi(i as i128); } v.push((m, "diagonal")); }
+    for p in perms(N) { if p.iter().enumerate().all(|(i, &j)| i == j) { continue; } let mut m = zeros::<X, N>(); for i in 0..N { m[i][p[i]] = qi(1); } v.push((m, "permutation")); }
+    { let mut m = zeros::<X, N>(); for i in 0..N { m[i][N - 1 - i] = qi(if i % 2 == 0 { -1 } else { 1 }); } v.push((m, "permutation")); } // signed anti-diagonal
+    for i in 0..N { for j in 0..N { v.push((unit::<N>(i, j, qi(1)), "single-entry")); } }
+    v.push(([[qi(1); N]; N], "all-equal")); v.push(([[qi(-2); N]; N], "all-equal"));
+    { let mut m = d0; for i in 0..N { for j in 0..i { m[i][j] = qi(0); } } v.push((m, "triangular")); }
+    { let mut m = d1; for i in 0..N { for j in i + 1..N { m[i][j] = qi(0); } } v.push((m, "triangular")); }
+    { let mut m = d0; for i in 0..N { for j in 0..=i { m[i][j] = qi(0); } } v.push((m, "triangular")); } // strictly upper (nilpotent)
+    { let mut m = d0; for i in 0..N { for j in 0..N { m[i][j] = d0[i][j] + d0[j][i]; } } v.push((m, "symmetric")); }
+    { let mut m = d0; for i in 0..N { for j in 0..N { m[i][j] = d0[i][j] - d0[j][i]; } } v.push((m, "skew-symmetric")); }
+    for d in [d0, d2] { let mut m = d; for j in 0..N { m[N - 1][j] = qi((j == N - 1) as i128); } v.push((m, "affine-bottom-row")); }
+    { let mut m = d1; for i in 0..N { m[i][N - 1] = qi((i == N - 1) as i128); } v.push((m, "affine-last-column")); }
+    { let mut m = d1; for k in 0..N { m[N - 1][k] = qi((k == N - 1) as i128); m[k][N - 1] = qi((k == N - 1) as i128); } v.push((m, "affine-bottom-row")); } // linear block + 1
+    { let mut m = d0; for i in 0..N { for j in 0..N { m[i][j] = d0[i][0] * d1[0][j]; } } v.push((m, "rank-one")); }
+    v.push((d0, "dense")); v.push((d1, "dense")); v.push((d2, "dense")); v.push((transpose(&d0), "dense"));
+    v.push((add_m(&id, &unit::<N>(N - 1, 0, p2(-60))), "near-identity")); v.push((add_m(&id, &unit::<N>(0, N - 1, p2(-60))), "near-identity"));
+    v.push((add_m(&id, &unit::<N>(0, N - 1, qi(1))), "near-identity")); v.push((add_m(&id, &unit::<N>(0, 0, p2(-60))), "near-identity"));
+    v.push((scale_m(&d0, p2(-60)), "tiny")); v.push((scale_m(&d1, p2(60)), "huge"));
+    v
+}
+/// special vectors: zero, +-axes, ones, dense, homogeneous point (.., 1) and direction (.., 0), one lane, tiny, huge
+fn special_vecs<const N: usize>() -> Vec<([X; N], &'static str)> {
+    let pat = [3, -2, 5, -7];
+    let dv = |f: X| { let mut v = [qi(0); N]; for i in 0..N { v[i] = qi(pat[i]) * f; } v };
+    let mut out: Vec<([X; N], &'static str)> = vec![([qi(0); N], "zero-vector"), ([qi(1); N], "ones-vector"), (dv(qi(1)), "dense-vector"), (dv(q(-1, 3)), "dense-vector")];
+    for k in 0..N { let mut v = [qi(0); N]; v[k] = qi(1); out.push((v, "axis-vector")); v[k] = qi(-1); out.push((v, "axis-vector")); v[k] = q(-7, 3); out.push((v, "single-lane-vector")); }
+    { let mut v = dv(qi(1)); v[N - 1] = qi(1); out.push((v, "homogeneous-point")); v[N - 1] = qi(0); out.push((v, "homogeneous-direction")); }
+    out.push((dv(p2(-60)), "tiny-vector")); out.push((dv(p2(60)), "huge-vector"));
+    out
+}
+
+/// every pair of structured matrices (equal operands and transposed pairs included) through the 6 matrix*matrix
+/// forms, every structured matrix against every special vector through the 4 vector forms
+fn structured_products<const N: usize, R, C, V>(s: &Section)
+where
+    R: MatIO<X, N> + Copy + Mul<R, Output = R> + Mul<C, Output = C> + Mul<V, Output = V> + MulAssign<R>,
+    C: MatIO<X, N> + Copy + Mul<C, Output = C> + Mul<R, Output = R> + Mul<V, Output = V> + MulAssign<C>,
+    V: VecIO<X, N> + Copy + Mul<R, Output = V> + Mul<C, Output = V>,
+{
+    let ms = structured::<N>();
+    let vs = special_vecs::<N>();
+    for (aa, ca) in &ms { s.class(ca);
+        for (bb, cb) in &ms {
+            let want = mmul(&aa, &bb);
+            let nz = nzm(aa) && nzm(bb);
+            if aa == bb && nz { s.class("equal-operands"); }
+            if *bb == transpose(aa) && aa != bb { s.class("transposed-pair"); }
+            let w = support(aa) + support(bb);
+            let inp = || json!({"A": jmat(aa), "B": jmat(bb), "A is": ca, "B is": cb});
+            let (ra, rb, ca_, cb_) = (R::build(aa), R::build(bb), C::build(aa), C::build(bb));
+            let chk = |site: &str, got: Option<A<X, N>>| {
+                s.eval(nz);
+                if let Some(g) = got { if g != want { s.violation_w(&format!("Mat{}::mul {}", N, site), "wrong-product", json!({"input": inp(), "got": jmat(&g), "want": jmat(&want)}), w); } }
+            };
+            chk("row*row", s.call("row*row", inp, || (ra * rb).decode()));
+            chk("col*col", s.call("col*col", inp, || (ca_ * cb_).decode()));
+            chk("row*col->col", s.call("row*col", inp, || (ra * cb_).decode()));
+            chk("col*row->row", s.call("col*row", inp, || (ca_ * rb).decode()));
+            chk("row*=row", s.call("row*=row", inp, || { let mut m = ra; m *= rb; m.decode() }));
+            chk("col*=col", s.call("col*=col", inp, || { let mut m = ca_; m *= cb_; m.decode() }));
+        }
+        for (vv, cv) in &vs {
+            let (want_mv, want_vm) = (mvec(aa, vv), vmat(vv, aa));
+            let nz = nzm(aa) && vv.iter().any(|x| !x.is_zero());
+            let w = support(aa) + vv.iter().filter(|x| !x.is_zero()).count() as u64;
+            let inp = || json!({"M": jmat(aa), "v": jxs(vv), "M is": ca, "v is": cv});
+            let (r, c, v) = (R::build(aa), C::build(aa), V::build(vv));
+            let chk = |site: &str, got: Option<[X; N]>, want: &[X; N]| {
+                s.eval(nz);
+                if let Some(g) = got { if &g != want { s.violation_w(&format!("Mat{} {}", N, site), "wrong-product", json!({"input": inp(), "got": jxs(&g), "want": jxs(want)}), w); } }
+            };
+            chk("row-major M*v", s.call("row M*v", inp, || (r * v).decode()), &want_mv);
+            chk("col-major M*v", s.call("col M*v", inp, || (c * v).decode()), &want_mv);
+            chk("v*row-major M", s.call("v*row M", inp, || (v * r).decode()), &want_vm);
+            chk("v*col-major M", s.call("v*col M", inp, || (v * c).decode()), &want_vm);
+        }
+    }
+    for (_, cv) in &vs { s.class_n(cv, ms.len() as u64); }
+    s.meta(&format!("N={}", N), json!({"structured_matrices": ms.len(), "ordered_pairs": ms.len() * ms.len(), "special_vectors": vs.len()}));
+}
+
+fn bin_ops_x<M: MatOps>(mw: fn(M, M) -> M) -> [(&'static str, fn(M, M) -> M, fn(X, X) -> X); 9] {
+    [("+ M", |a, b| a + b, |x, y| x + y), ("- M", |a, b| a - b, |x, y| x - y), ("/ M", |a, b| a / b, |x, y| x / y), ("% M", |a, b| a % b, |x, y| x % y),
+     ("mul_memberwise", mw, |x, y| x * y),
+     ("+= M", |mut a, b| { a += b; a }, |x, y| x + y), ("-= M", |mut a, b| { a -= b; a }, |x, y| x - y),
+     ("/= M", |mut a, b| { a /= b; a }, |x, y| x / y), ("%= M", |mut a, b| { a %= b; a }, |x, y| x % y)]
+}
+fn sc_ops_x<M: MatOps>() -> [(&'static str, fn(M, X) -> M, fn(X, X) -> X); 10] {
+    [("+ scalar", |a, k| a + k, |x, y| x + y), ("- scalar", |a, k| a - k, |x, y| x - y), ("* scalar", |a, k| a * k, |x, y| x * y),
+     ("/ scalar", |a, k| a / k, |x, y| x / y), ("% scalar", |a, k| a % k, |x, y| x % y),
+     ("+= scalar", |mut a, k| { a += k; a }, |x, y| x + y), ("-= scalar", |mut a, k| { a -= k; a }, |x, y| x - y), ("*= scalar", |mut a, k| { a *= k; a }, |x, y| x * y),
+     ("/= scalar", |mut a, k| { a /= k; a }, |x, y| x / y), ("%= scalar", |mut a, k| { a %= k; a }, |x, y| x % y)]
+}
+
+/// element-wise and scalar operators on operands that are RELATED (a fixed independent right operand never makes
+/// `self == rhs`, `a_ij == s`, `self == -rhs` true), every entry non-zero so that / and % are defined; and the
+/// is_zero / is_one verdicts on every one-entry perturbation of zero and of the identity (2^-60 included)
+fn ew_relational<const N: usize, M: MatOps + MatIO<X, N>>(s: &Section, lay: &str, mw: fn(M, M) -> M) {
+    let site = |op: &str| format!("Mat{}<{}> {}", N, lay, op);
+    let (d0, d1, d2) = (dense_fixed::<N>(0), dense_fixed::<N>(1), dense_fixed::<N>(2));
+    let lefts: [(A<X, N>, &str); 5] = [(d0, "dense"), (d1, "dense"), (d2, "fractional"), (scale_m(&d0, p2(-60)), "tiny"), (scale_m(&d1, p2(60)), "huge")];
+    let (bin_ops, sc_ops) = (bin_ops_x::<M>(mw), sc_ops_x::<M>());
+    for (aa, cls) in &lefts {
+        s.class(cls);
+        let a = M::build(aa);
+        let rights: [(A<X, N>, &str); 8] = [(*aa, "equal-operands"), (scale_m(aa, qi(-1)), "negated-operand"), (transpose(aa), "transposed-operand"),
+            ({ let mut m = *aa; m[0][N - 1] = m[0][N - 1] * qi(2); m }, "one-entry-apart"), ({ let mut m = *aa; m[N - 1][N - 1] = -m[N - 1][N - 1]; m }, "one-entry-apart"),
+            (scale_m(aa, qi(2)), "doubled-operand"), ([[qi(1); N]; N], "all-ones-operand"), ([[qi(-1); N]; N], "all-ones-operand")];
+        for (bb, rc) in &rights {
+            s.class(rc);
+            let b = M::build(bb);
+            for (name, f, r) in bin_ops.iter() {
+                s.eval(true);
+                if cls == &"huge" && name == &"mul_memberwise" && rc != &"all-ones-operand" { continue; } // 2^120 * 81 leaves i128
+                if let Some(m) = s.call(&site(name), || json!({"A": jmat(aa), "B": jmat(bb), "B is": rc}), || f(a, b)) {
+                    let g = m.decode();
+                    for i in 0..N { for j in 0..N { let want = r(aa[i][j], bb[i][j]); if g[i][j] != want {
+                        s.violation_w(&site(name), "wrong-element", json!({"A": jmat(aa), "rhs": jmat(bb), "rhs is": rc, "position": [i, j], "got": jx(g[i][j]), "want": jx(want)}), (N * N) as u64); } } }
+                }
+            }
+        }
+        let scalars: [(X, &str); 8] = [(aa[0][0], "scalar-equals-entry"), (-aa[0][0], "scalar-equals-negated-entry"), (aa[N - 1][0], "scalar-equals-entry"), (aa[N - 1][N - 1], "scalar-equals-entry"),
+            (p2(-60), "scalar-below-epsilon"), (-p2(-60), "scalar-below-epsilon"), (p2(60), "scalar-2^60"), (qi(2), "scalar-two")];
+        for (k, kc) in &scalars {
+            s.class(kc);
+            for (name, f, r) in sc_ops.iter() {
+                s.eval(true);
+                if cls == &"huge" && kc == &"scalar-2^60" && name.starts_with('*') { continue; }
+                if let Some(m) = s.call(&site(name), || json!({"A": jmat(aa), "scalar": jx(*k), "scalar is": kc}), || f(a, *k)) {
+                    let g = m.decode();
+                    for i in 0..N { for j in 0..N { let want = r(aa[i][j], *k); if g[i][j] != want {
+                        s.violation_w(&site(name), "wrong-element", json!({"A": jmat(aa), "rhs": jx(*k), "rhs is": kc, "position": [i, j], "got": jx(g[i][j]), "want": jx(want)}), (N * N) as u64); } } }
+                }
+            }
+        }
+    }
+    // verdicts next to zero and next to the identity
+    let id = ident::<X, N>();
+    let mut probes: Vec<(A<X, N>, &str)> = vec![(zeros::<X, N>(), "exact-zero"), (id, "exact-identity"), ([[qi(1); N]; N], "all-ones"), (scale_m(&id, qi(-1)), "negated-identity")];
+    for i in 0..N { for j in 0..N {
+        for e in [p2(-60), -p2(-60), qi(1)] { probes.push((unit::<N>(i, j, e), "zero-plus-one-entry")); probes.push((add_m(&id, &unit::<N>(i, j, e)), "identity-plus-one-entry")); }
+        if i == j { for e in [qi(-1), qi(-2)] { probes.push((add_m(&id, &unit::<N>(i, j, e)), "identity-diagonal-entry-changed")); } }
+        if i != j { let mut m = id; m[i][j] = qi(1); m[j][i] = qi(-1); probes.push((m, "identity-plus-skew-pair")); }
+    } }
+    for (aa, cls) in &probes {
+        s.class(cls); s.eval(true); s.eval(true);
+        let a = M::build(aa);
+        let (isz, iso) = (!nzm(aa), *aa == id);
+        if let Some(g) = s.call(&site("Zero::is_zero"), || jmat(aa), || Zero::is_zero(&a)) { if g != isz {
+            s.violation_w(&site("Zero::is_zero"), "wrong-verdict", json!({"M": jmat(aa), "got": g, "want": isz}), support(aa)); } }
+        if let Some(g) = s.call(&site("One::is_one"), || jmat(aa), || One::is_one(&a)) { if g != iso {
+            s.violation_w(&site("One::is_one"), "wrong-verdict", json!({"M": jmat(aa), "got": g, "want": iso}), support(aa)); } }
+    }
+    s.meta(&format!("Mat{}<{}>", N, lay), json!({"left_operands": lefts.len(), "related_right_operands": 8, "related_scalars": 8, "verdict_probes": probes.len()}));
+}
+
+/// the same operators with both operands the SAME free-term matrix (`self == rhs` is true on terms here, unlike
+/// in the free-term section above where all variables are distinct): a/a must be div(a_ij, a_ij), not a constant
+macro_rules! elementwise_equal { ($s:expr, $N:expr, $M:ty, $lay:expr) => {{
+    let s: &Section = $s;
+    const N: usize = $N;
+    let ta = tvars::<N>(0);
+    let a = <$M as MatIO<Term, N>>::build(&ta);
+    let site = |op: &str| format!("Mat{}<{}> {}", N, $lay, op);
+    let expect = |op: &str, got: Result<$M, Caught>, f: &dyn Fn(usize, usize) -> Term| {
+        s.eval(true);
+        match got {
+            Ok(m) => { let g = m.decode(); for i in 0..N { for j in 0..N { if g[i][j] != f(i, j) {
+                s.violation(&site(op), "wrong-element", json!({"operands": "identical", "position": [i, j], "got": jd(&g[i][j]), "want": jd(&f(i, j))})); } } } }
+            Err(e) => s.violation(&site(op), "panic", json!({"error": jd(&e)})),
+        }
+    };
+    expect("+ M", catch(|| a + a), &|i, j| Term::bin("add", ta[i][j], ta[i][j]));
+    expect("- M", catch(|| a - a), &|i, j| Term::bin("sub", ta[i][j], ta[i][j]));
+    expect("/ M", catch(|| a / a), &|i, j| Term::bin("div", ta[i][j], ta[i][j]));
+    expect("% M", catch(|| a % a), &|i, j| Term::bin("rem", ta[i][j], ta[i][j]));
+    expect("mul_memberwise", catch(|| a.mul_memberwise(a)), &|i, j| Term::bin("mul", ta[i][j], ta[i][j]));
+    expect("+= M", catch(|| { let mut m = a; m += a; m }), &|i, j| Term::bin("add", ta[i][j], ta[i][j]));
+    expect("-= M", catch(|| { let mut m = a; m -= a; m }), &|i, j| Term::bin("sub", ta[i][j], ta[i][j]));
+    expect("/= M", catch(|| { let mut m = a; m /= a; m }), &|i, j| Term::bin("div", ta[i][j], ta[i][j]));
+    expect("%= M", catch(|| { let mut m = a; m %= a; m }), &|i, j| Term::bin("rem", ta[i][j], ta[i][j]));
+    // scalar operand identical to one entry of the matrix
+    let sc = ta[0][N - 1];
+    expect("+ scalar", catch(|| a + sc), &|i, j| Term::bin("add", ta[i][j], sc));
+    expect("- scalar", catch(|| a - sc), &|i, j| Term::bin("sub", ta[i][j], sc));
+    expect("* scalar", catch(|| a * sc), &|i, j| Term::bin("mul", ta[i][j], sc));
+    expect("/ scalar", catch(|| a / sc), &|i, j| Term::bin("div", ta[i][j], sc));
+    expect("% scalar", catch(|| a % sc), &|i, j| Term::bin("rem", ta[i][j], sc));
+    // constant scalars 0 and 1 (`is_zero()` / `is_one()` are TRUE on these terms)
+    for c in [0i64, 1, 2] { let k = Term::cst(c);
+        expect("* scalar", catch(|| a * k), &|i, j| Term::bin("mul", ta[i][j], k));
+        expect("*= scalar", catch(|| { let mut m = a; m *= k; m }), &|i, j| Term::bin("mul", ta[i][j], k));
+        expect("+ scalar", catch(|| a + k), &|i, j| Term::bin("add", ta[i][j], k));
+        expect("- scalar", catch(|| a - k), &|i, j| Term::bin("sub", ta[i][j], k));
+        if c != 0 { expect("/ scalar", catch(|| a / k), &|i, j| Term::bin("div", ta[i][j], k)); expect("% scalar", catch(|| a % k), &|i, j| Term::bin("rem", ta[i][j], k));
+                    expect("/= scalar", catch(|| { let mut m = a; m /= k; m }), &|i, j| Term::bin("div", ta[i][j], k)); }
+    }
+}} }
+
+/// products with both operands the same free-term matrix, expanded: (A*A)_ij = sum_k a_ik a_kj in all forms
+fn sym_squares<const N: usize, R, C>(s: &Section)
+where
+    R: MatIO<Term, N> + Copy + Mul<R, Output = R> + Mul<C, Output = C> + MulAssign<R>,
+    C: MatIO<Term, N> + Copy + Mul<C, Output = C> + Mul<R, Output = R> + MulAssign<C>,
+{
+    let ta = tvars::<N>(0);
+    let (ra, ca) = (R::build(&ta), C::build(&ta));
+    let (rt, ct) = (R::build(&transpose(&ta)), C::build(&transpose(&ta)));
+    let pa = |i: usize, j: usize| p_var((i * N + j) as u32);
+    let sum = |f: &dyn Fn(usize) -> Poly| { let mut o = Poly::new(); for k in 0..N { o = p_lin(&o, &f(k), 1); } o };
+    let mat = |site: String, got: Result<A<Term, N>, Caught>, want: &dyn Fn(usize, usize) -> Poly| { match got {
+        Ok(g) => for i in 0..N { for j in 0..N { s.eval(true); match poly_of(g[i][j]) {
+            Ok(p) => if p != want(i, j) { s.violation(&site, "wrong-polynomial", json!({"operands": "identical / transposed", "position": [i, j], "got_term": jd(&g[i][j]), "got_polynomial": jpoly(&p), "want_polynomial": jpoly(&want(i, j))})); },
+            Err(e) => s.violation(&site, "non-ring-operation", json!({"position": [i, j], "got_term": jd(&g[i][j]), "why": e})) } } },
+        Err(e) => { s.eval(true); s.violation(&site, "panic", json!({"error": jd(&e)})) } } };
+    let sq = |i: usize, j: usize| sum(&|k| p_mul(&pa(i, k), &pa(k, j)));
+    let aat = |i: usize, j: usize| sum(&|k| p_mul(&pa(i, k), &pa(j, k)));
+    let mm = |f: &str| format!("Mat{}::mul {}", N, f);
+    mat(mm("row*row"), catch(|| (ra * ra).decode()), &sq);
+    mat(mm("col*col"), catch(|| (ca * ca).decode()), &sq);
+    mat(mm("row*col->col"), catch(|| (ra * ca).decode()), &sq);
+    mat(mm("col*row->row"), catch(|| (ca * ra).decode()), &sq);
+    mat(mm("row*=row"), catch(|| { let mut m = ra; m *= ra; m.decode() }), &sq);
+    mat(mm("col*=col"), catch(|| { let mut m = ca; m *= ca; m.decode() }), &sq);
+    // A * A^T: in the mixed forms the two operands then hold the very same lines in storage
+    mat(mm("row*row"), catch(|| (ra * rt).decode()), &aat);
+    mat(mm("col*col"), catch(|| (ca * ct).decode()), &aat);
+    mat(mm("row*col->col"), catch(|| (ra * ct).decode()), &aat);
+    mat(mm("col*row->row"), catch(|| (ca * rt).decode()), &aat);
+}
+
+// ---- scalar and element-wise operators at the primitive element types -----------------------------------------
+trait Elem: Copy + PartialEq + std::fmt::Debug + Add<Output = Self> + Sub<Output = Self> + Mul<Output = Self> + Div<Output = Self> + Rem<Output = Self> {}
+impl<T: Copy + PartialEq + std::fmt::Debug + Add<Output = T> + Sub<Output = T> + Mul<Output = T> + Div<Output = T> + Rem<Output = T>> Elem for T {}
+trait MatOpsT<T>: Copy + Add<Output = Self> + Sub<Output = Self> + Div<Output = Self> + Rem<Output = Self>
+    + Add<T, Output = Self> + Sub<T, Output = Self> + Mul<T, Output = Self> + Div<T, Output = Self> + Rem<T, Output = Self>
+    + AddAssign + SubAssign + DivAssign + RemAssign + AddAssign<T> + SubAssign<T> + MulAssign<T> + DivAssign<T> + RemAssign<T> {}
+impl<T, M> MatOpsT<T> for M where M: Copy + Add<Output = M> + Sub<Output = M> + Div<Output = M> + Rem<Output = M>
+    + Add<T, Output = M> + Sub<T, Output = M> + Mul<T, Output = M> + Div<T, Output = M> + Rem<T, Output = M>
+    + AddAssign + SubAssign + DivAssign + RemAssign + AddAssign<T> + SubAssign<T> + MulAssign<T> + DivAssign<T> + RemAssign<T> {}
+
+/// left entries: magnitudes 8..=11, right entries 1..=7, scalars 1, 2, 3, 7 (and negatives for signed types): every
+/// sum, difference, product (<= 121), quotient and remainder is representable in every type down to i8 / u8; the
+/// right operand is also the left one (equal operands).  Oracle: the element type's own scalar operator per element.
+fn ew_prim<T: Elem, const N: usize, M: MatOpsT<T> + MatIO<T, N>>(s: &Section, tname: &str, lay: &str, signed: bool, mk: &dyn Fn(i32) -> T, mw: fn(M, M) -> M) {
+    let site = |op: &str| format!("Mat{}<{}> {} [{}]", N, lay, op, tname);
+    let sg = |idx: usize, k: usize, v: i32| if signed && (idx * 7 + idx / 3 + k) % 2 == 1 { -v } else { v };
+    let left = |k: usize| { let mut m = [[mk(1); N]; N]; for i in 0..N { for j in 0..N { let idx = i * N + j; m[i][j] = mk(sg(idx, k, [9, 11, 8, 10, 11, 9, 10, 8][(idx + 3 * k) % 8])); } } m };
+    let right = |k: usize| { let mut m = [[mk(1); N]; N]; for i in 0..N { for j in 0..N { let idx = i * N + j; m[i][j] = mk(sg(idx + 1, k, [3, 2, 5, 7, 4, 1, 6][(idx + 2 * k) % 7])); } } m };
+    let mut scalars: Vec<T> = [1, 2, 3, 7].iter().map(|&v| mk(v)).collect();
+    if signed { scalars.extend([-1, -2, -3].iter().map(|&v| mk(v))); }
+    let bin: [(&str, fn(M, M) -> M, fn(T, T) -> T); 9] = [
+        ("+ M", |a, b| a + b, |x, y| x + y), ("- M", |a, b| a - b, |x, y| x - y), ("/ M", |a, b| a / b, |x, y| x / y), ("% M", |a, b| a % b, |x, y| x % y),
+        ("mul_memberwise", mw, |x, y| x * y),
+        ("+= M", |mut a, b| { a += b; a }, |x, y| x + y), ("-= M", |mut a, b| { a -= b; a }, |x, y| x - y),
+        ("/= M", |mut a, b| { a /= b; a }, |x, y| x / y), ("%= M", |mut a, b| { a %= b; a }, |x, y| x % y)];
+    let sc: [(&str, fn(M, T) -> M, fn(T, T) -> T); 10] = [
+        ("+ scalar", |a, k| a + k, |x, y| x + y), ("- scalar", |a, k| a - k, |x, y| x - y), ("* scalar", |a, k| a * k, |x, y| x * y),
+        ("/ scalar", |a, k| a / k, |x, y| x / y), ("% scalar", |a, k| a % k, |x, y| x % y),
+        ("+= scalar", |mut a, k| { a += k; a }, |x, y| x + y), ("-= scalar", |mut a, k| { a -= k; a }, |x, y| x - y), ("*= scalar", |mut a, k| { a *= k; a }, |x, y| x * y),
+        ("/= scalar", |mut a, k| { a /= k; a }, |x, y| x / y), ("%= scalar", |mut a, k| { a %= k; a }, |x, y| x % y)];
+    for ka in 0..2 {
+        let aa = left(ka);
+        let a = M::build(&aa);
+        // unsigned `-`: the right operand is always smaller; `a - a` is 0
+        for bb in [right(0), right(1), right(2), aa] {
+            let b = M::build(&bb);
+            for (name, f, r) in bin.iter() {
+                s.eval(true);
+                if let Some(m) = s.call(&site(name), || json!({"T": tname, "A": jd(&aa), "B": jd(&bb)}), || f(a, b)) {
+                    let g = m.decode();
+                    let mut want = aa; for i in 0..N { for j in 0..N { want[i][j] = r(aa[i][j], bb[i][j]); } }
+                    if g != want { s.violation_w(&site(name), "wrong-element", json!({"T": tname, "A": jd(&aa), "B": jd(&bb), "got": jd(&g), "want": jd(&want)}), ka as u64); }
+                }
+            }
+        }
+        for k in &scalars {
+            for (name, f, r) in sc.iter() {
+                s.eval(true);
+                if let Some(m) = s.call(&site(name), || json!({"T": tname, "A": jd(&aa), "scalar": jd(k)}), || f(a, *k)) {
+                    let g = m.decode();
+                    let mut want = aa; for i in 0..N { for j in 0..N { want[i][j] = r(aa[i][j], *k); } }
+                    if g != want { s.violation_w(&site(name), "wrong-element", json!({"T": tname, "A": jd(&aa), "scalar": jd(k), "got": jd(&g), "want": jd(&want)}), ka as u64); }
+                }
+            }
+        }
+    }
+}
+fn neg_prim<T: Elem + Neg<Output = T>, const N: usize, M: Copy + Neg<Output = M> + MatIO<T, N>>(s: &Section, tname: &str, lay: &str, mk: &dyn Fn(i32) -> T) {
+    let site = format!("Mat{}<{}> neg [{}]", N, lay, tname);
+    let mut aa = [[mk(1); N]; N]; for i in 0..N { for j in 0..N { let idx = i * N + j; aa[i][j] = mk([9, -11, 8, 0, -10, 11, -9][idx % 7]); } }
+    s.eval(true);
+    if let Some(m) = s.call(&site, || json!({"T": tname, "A": jd(&aa)}), || -M::build(&aa)) {
+        let g = m.decode();
+        let mut want = aa; for i in 0..N { for j in 0..N { want[i][j] = -aa[i][j]; } }
+        if g != want { s.violation(&site, "wrong-element", json!({"T": tname, "A": jd(&aa), "got": jd(&g), "want": jd(&want)})); }
+    }
+}
+
+// ---- products: remaining primitive types, type bounds, wider float range --------------------------------------
+/// exact k * 2^e for every e whose result is representable (subnormal results included): two exact steps
+fn ld32(v: i128, e: i32) -> f32 { let h = e / 2; (v as f32) * f32p2(h) * f32p2(e - h) }
+fn ld64(v: i128, e: i32) -> f64 { let h = e / 2; (v as f64) * f64p2(h) * f64p2(e - h) }
+
+/// `prim_products` with a caller-supplied integer image of the lattice coordinates (narrow types need smaller entries)
+fn prim_products_img<const N: usize, T, R, C, V>(s: &Section, d: u32, tname: &str, img: &(dyn Fn(usize, i64) -> i128 + Sync), conv: &(dyn Fn(i128) -> T + Sync))
+where
+    T: Copy + PartialEq + std::fmt::Debug + Send + Sync,
+    R: MatIO<T, N> + Copy + Send + Sync + Mul<R, Output = R> + Mul<C, Output = C> + Mul<V, Output = V> + MulAssign<R>,
+    C: MatIO<T, N> + Copy + Send + Sync + Mul<C, Output = C> + Mul<R, Output = R> + Mul<V, Output = V> + MulAssign<C>,
+    V: VecIO<T, N> + Copy + Send + Sync + Mul<R, Output = V> + Mul<C, Output = V>,
+{
+    let nn = N * N;
+    par_lattice_bal(2 * nn, d, |a| {
+        let mut ia = [[0i128; N]; N]; let mut ib = [[0i128; N]; N];
+        for i in 0..N { for j in 0..N { ia[i][j] = img(i * N + j, a[i * N + j]); ib[i][j] = img(nn + i * N + j, a[nn + i * N + j]); } }
+        let mut iv = [0i128; N]; for k in 0..N { iv[k] = ib[k][N - 1 - k]; }
+        prim_forms::<N, T, R, C, V>(s, tname, &ia, &ib, &iv, conv, a.iter().sum::<i64>() as u64);
+    });
+    s.class_n(tname, lattice_count(2 * nn, d) as u64);
+}
+/// the 10 product forms at element type T on one integer triple (A, B, v), compared with the exact integer result
+fn prim_forms<const N: usize, T, R, C, V>(s: &Section, tname: &str, ia: &A<i128, N>, ib: &A<i128, N>, iv: &[i128; N], conv: &(dyn Fn(i128) -> T + Sync), w: u64)
+where
+    T: Copy + PartialEq + std::fmt::Debug,
+    R: MatIO<T, N> + Copy + Mul<R, Output = R> + Mul<C, Output = C> + Mul<V, Output = V> + MulAssign<R>,
+    C: MatIO<T, N> + Copy + Mul<C, Output = C> + Mul<R, Output = R> + Mul<V, Output = V> + MulAssign<C>,
+    V: VecIO<T, N> + Copy + Mul<R, Output = V> + Mul<C, Output = V>,
+{
+    let (wab, wav, wva) = (mmul(ia, ib), mvec(ia, iv), vmat(iv, ia));
+    let cm = |m: &A<i128, N>| { let mut o = [[conv(0); N]; N]; for i in 0..N { for j in 0..N { o[i][j] = conv(m[i][j]); } } o };
+    let cv = |m: &[i128; N]| { let mut o = [conv(0); N]; for i in 0..N { o[i] = conv(m[i]); } o };
+    let (ta, tb, tv) = (cm(ia), cm(ib), cv(iv));
+    let (want_ab, want_av, want_va) = (cm(&wab), cv(&wav), cv(&wva));
+    let inp = || json!({"T": tname, "A": jd(&ta), "B": jd(&tb), "v": jd(&tv)});
+    let (ra, rb, ca, cb, v) = (R::build(&ta), R::build(&tb), C::build(&ta), C::build(&tb), V::build(&tv));
+    let cs = |f: &str| format!("Mat{}<{}> {}", N, tname, f);
+    let chk = |form: &str, got: Option<A<T, N>>| {
+        s.eval(true);
+        if let Some(g) = got { if g != want_ab { s.violation_w(&format!("Mat{}<{}>::mul {}", N, tname, form), "wrong-product", json!({"input": inp(), "got": jd(&g), "want": jd(&want_ab)}), w); } }
+    };
+    chk("row*row", s.call(&cs("row*row"), inp, || (ra * rb).decode()));
+    chk("col*col", s.call(&cs("col*col"), inp, || (ca * cb).decode()));
+    chk("row*col->col", s.call(&cs("row*col"), inp, || (ra * cb).decode()));
+    chk("col*row->row", s.call(&cs("col*row"), inp, || (ca * rb).decode()));
+    chk("row*=row", s.call(&cs("row*=row"), inp, || { let mut m = ra; m *= rb; m.decode() }));
+    chk("col*=col", s.call(&cs("col*=col"), inp, || { let mut m = ca; m *= cb; m.decode() }));
+    let chkv = |form: &str, got: Option<[T; N]>, want: &[T; N]| {
+        s.eval(true);
+        if let Some(g) = got { if &g != want { s.violation_w(&format!("Mat{}<{}> {}", N, tname, form), "wrong-product", json!({"input": inp(), "got": jd(&g), "want": jd(want)}), w); } }
+    };
+    chkv("row-major M*v", s.call(&cs("row M*v"), inp, || (ra * v).decode()), &want_av);
+    chkv("col-major M*v", s.call(&cs("col M*v"), inp, || (ca * v).decode()), &want_av);
+    chkv("v*row-major M", s.call(&cs("v*row M"), inp, || (v * ra).decode()), &want_va);
+    chkv("v*col-major M", s.call(&cs("v*col M"), inp, || (v * ca).decode()), &want_va);
+}
+/// results AT the type bound: A has a, c in row i (columns k1 < k2), B has b, d in column j (rows k1, k2), a*b + c*d = bound,
+/// all four of the same sign pattern so that each product and each partial sum in any order lies between 0 and the bound:
+/// the defining sums cannot overflow, (A*B)_ij = bound, every other entry is 0; v = column j of B resp. row i of A
+fn prim_bounds<const N: usize, T, R, C, V>(s: &Section, tname: &str, cases: &[(i128, i128, i128, i128)], range: (i128, i128), conv: &(dyn Fn(i128) -> T + Sync))
+where
+    T: Copy + PartialEq + std::fmt::Debug,
+    R: MatIO<T, N> + Copy + Mul<R, Output = R> + Mul<C, Output = C> + Mul<V, Output = V> + MulAssign<R>,
+    C: MatIO<T, N> + Copy + Mul<C, Output = C> + Mul<R, Output = R> + Mul<V, Output = V> + MulAssign<C>,
+    V: VecIO<T, N> + Copy + Mul<R, Output = V> + Mul<C, Output = V>,
+{
+    let inr = |v: i128| range.0 <= v && v <= range.1;
+    // every entry of every result of the 10 forms is a single product or a same-sign two-term sum: in range => no overflow on the way
+    let fits = |x: &A<i128, N>, y: &A<i128, N>, v: &[i128; N]| mmul(x, y).iter().flatten().all(|&e| inr(e)) && mvec(x, v).iter().all(|&e| inr(e)) && vmat(v, x).iter().all(|&e| inr(e));
+    let zero = [[0i128; N]; N];
+    let (mut hit, mut skipped) = (0u64, 0u64);
+    for &(a, b, c, d) in cases { for i in 0..N { for j in 0..N { for k1 in 0..N { for k2 in k1 + 1..N {
+        let mut ia = [[0i128; N]; N]; let mut ib = [[0i128; N]; N];
+        ia[i][k1] = a; ia[i][k2] = c; ib[k1][j] = b; ib[k2][j] = d;
+        let mut col = [0i128; N]; for k in 0..N { col[k] = ib[k][j]; }
+        // A*B and A*v (v = column j of B) hit the bound at (i, j) resp. lane i
+        if fits(&ia, &ib, &col) { prim_forms::<N, T, R, C, V>(s, tname, &ia, &ib, &col, conv, 4); hit += 1; } else { skipped += 1; }
+        // v*B with v = row i of A hits the bound at lane j
+        let row = ia[i];
+        if fits(&ib, &zero, &row) { prim_forms::<N, T, R, C, V>(s, tname, &ib, &zero, &row, conv, 4); hit += 1; } else { skipped += 1; }
+    } } } } }
+    s.class_n(tname, hit);
+    s.meta(&format!("bounds Mat{}<{}>", N, tname), json!({"operand_triples_at_the_bound": hit, "skipped_because_another_entry_leaves_the_type": skipped}));
+}
+
+/// Vec4 helpers at a primitive type with a caller-supplied image; `plain_only`: unsigned types (the adjugate forms subtract)
+fn vec4_prim_img<T>(s: &Section, d: u32, tname: &str, plain_only: bool, img: &(dyn Fn(usize, i64) -> i128 + Sync), conv: &(dyn Fn(i128) -> T + Sync))
+where T: Copy + PartialEq + std::fmt::Debug + Send + Sync + Add<Output = T> + Mul<Output = T> + Sub<Output = T> {
+    let calls = mat2_calls::<T>();
+    par_lattice_bal(8, d, |p| {
+        let mut ia = [0i128; 4]; let mut ib = [0i128; 4];
+        for k in 0..4 { ia[k] = img(k, p[k]); ib[k] = img(4 + k, p[4 + k]); }
+        let refs = mat2_refs(&ia, &ib);
+        let c4 = |v: &[i128; 4]| [conv(v[0]), conv(v[1]), conv(v[2]), conv(v[3])];
+        let (ta, tb) = (c4(&ia), c4(&ib));
+        for (k, (name, want)) in refs.iter().enumerate() {
+            if plain_only && k % 3 != 0 { continue; }
+            s.eval(true);
+            let want = c4(want);
+            let site = format!("Vec4<{}>::{}", tname, name);
+            if let Some(g) = s.call(&site, || json!({"a": jd(&ta), "b": jd(&tb)}), || dv4(&calls[k](v4(&ta), v4(&tb)))) { if g != want {
+                s.violation_w(&site, "wrong-product", json!({"a": jd(&ta), "b": jd(&tb), "got": jd(&g), "want": jd(&want)}), p.iter().sum::<i64>() as u64); } }
+        }
+    });
+    s.class_n(tname, lattice_count(8, d) as u64);
+}
+/// the six helpers on one pair of exact operands, plus the differential against the real Mat2 products
+fn vec4_pair(s: &Section, a: &[X; 4], b: &[X; 4], what: &str, w: u64) {
+    let calls = mat2_calls::<X>();
+    let nz = a.iter().any(|x| !x.is_zero()) && b.iter().any(|x| !x.is_zero());
+    let refs = mat2_refs(a, b);
+    let mut got_plain: [Option<[X; 4]>; 2] = [None, None];
+    for (k, (name, want)) in refs.iter().enumerate() {
+        s.eval(nz);
+        if let Some(g) = s.call(name, || json!({"operands": what, "a": jxs(a), "b": jxs(b)}), || dv4(&calls[k](v4(a), v4(b)))) {
+            if k % 3 == 0 { got_plain[k / 3] = Some(g); }
+            if &g != want { s.violation_w(&format!("Vec4::{}", name), "wrong-product", json!({"operands": what, "a": jxs(a), "b": jxs(b), "got": jxs(&g), "want": jxs(want)}), w); }
+        }
+    }
+    let rr = s.call("rm::Mat2*rm::Mat2", || json!({"a": jxs(a), "b": jxs(b)}), || dr2(&(r2(&[[a[0], a[1]], [a[2], a[3]]]) * r2(&[[b[0], b[1]], [b[2], b[3]]]))));
+    let cc = s.call("cm::Mat2*cm::Mat2", || json!({"a": jxs(a), "b": jxs(b)}), || dc2(&(c2(&[[a[0], a[2]], [a[1], a[3]]]) * c2(&[[b[0], b[2]], [b[1], b[3]]]))));
+    s.eval(nz); s.eval(nz);
+    if let (Some(m), Some(g)) = (rr, got_plain[0]) { if [m[0][0], m[0][1], m[1][0], m[1][1]] != g {
+        s.violation_w("Vec4::mat2_rows_mul", "differs-from-row-major-Mat2-product", json!({"a": jxs(a), "b": jxs(b), "helper": jxs(&g), "Mat2": jmat(&m)}), w); } }
+    if let (Some(m), Some(g)) = (cc, got_plain[1]) { if [m[0][0], m[1][0], m[0][1], m[1][1]] != g {
+        s.violation_w("Vec4::mat2_cols_mul", "differs-from-column-major-Mat2-product", json!({"a": jxs(a), "b": jxs(b), "helper": jxs(&g), "Mat2": jmat(&m)}), w); } }
+}
+
 fn main() {
     let rep = Report::start("C01", "exploration");
     let extra = if rep.thorough() { 4 } else { 2 };
@@ -861,9 +1329,9 @@ fn main() {
                 let mut got_plain: [Option<[X; 4]>; 2] = [None, None];
                 for (k, (name, want)) in refs.iter().enumerate() {
                     s.eval(nz);
-                    if let Some(g) = s.call(name, || json!({"map": MAPS[map], "a": jxs(&a), "b": jxs(&b)}), || dv4(&calls[k](v4(&a), v4(&b)))) {
+                    if let Some(g) = s.call(name, || json!({"map": MAPN[map], "a": jxs(&a), "b": jxs(&b)}), || dv4(&calls[k](v4(&a), v4(&b)))) {
                         if k % 3 == 0 { got_plain[k / 3] = Some(g); }
-                        if &g != want { s.violation_w(&format!("Vec4::{}", name), "wrong-product", json!({"map": MAPS[map], "a": jxs(&a), "b": jxs(&b), "got": jxs(&g), "want": jxs(want)}), w); }
+                        if &g != want { s.violation_w(&format!("Vec4::{}", name), "wrong-product", json!({"map": MAPN[map], "a": jxs(&a), "b": jxs(&b), "got": jxs(&g), "want": jxs(want)}), w); }
                     }
                 }
                 let rr = s.call("rm::Mat2*rm::Mat2", || json!({"a": jxs(&a), "b": jxs(&b)}), || dr2(&(r2(&[[a[0], a[1]], [a[2], a[3]]]) * r2(&[[b[0], b[1]], [b[2], b[3]]]))));
@@ -874,7 +1342,7 @@ fn main() {
                 if let (Some(m), Some(g)) = (cc, got_plain[1]) { if [m[0][0], m[1][0], m[0][1], m[1][1]] != g {
                     s.violation_w("Vec4::mat2_cols_mul", "differs-from-column-major-Mat2-product", json!({"a": jxs(&a), "b": jxs(&b), "helper": jxs(&g), "Mat2": jmat(&m)}), w); } }
             });
-            s.class_n(MAPS[map], lattice_count(8, d) as u64);
+            s.class_n(MAPN[map], lattice_count(8, d) as u64);
         }
         let dp = if th { 6 } else { 3 };
         vec4_prim::<i32>(s, dp, "i32", &|v: i128, _e: i32| v as i32, &[(0, 0)]);
@@ -882,6 +1350,144 @@ fn main() {
         vec4_prim::<f32>(s, dp, "f32", &|v: i128, e: i32| (v as f32) * f32p2(e), &[(0, 0), (40, -40), (-40, 40), (40, 40), (-40, -40)]);
         vec4_prim::<f64>(s, dp, "f64", &|v: i128, e: i32| (v as f64) * f64p2(e), &[(0, 0), (400, -400), (-400, 400), (400, 400), (-400, -400)]);
         s.sample(json!({"map": "fractional", "a": "[1/2, -3/2+..]", "functions": 6, "also": "mat2_rows_mul vs rm::Mat2*rm::Mat2, mat2_cols_mul vs cm::Mat2*cm::Mat2"}));
+    });
+
+    // ------------------------------------------------------------------------------- second audit round (adversarial)
+    rep.section("special-structured operands against each other and against dense partners (value-dependent shortcuts)",
+        "per size N: zero, identity, -I, 2I, -3I, I/2, two diagonals, all N!-1 permutation matrices and a signed anti-diagonal, all N^2 single-entry matrices, all-equal (1, -2), upper / lower / strictly-upper triangular, symmetric, skew-symmetric, dense with bottom row (0,..,0,1), dense with last column (0,..,0,1)^T, linear block + 1, rank one, 3 dense + a transpose, identity + 2^-60 / + 1 in one entry, 2^-60 * dense, 2^60 * dense: EVERY ordered pair (equal operands and A, A^T pairs included) through the 6 matrix*matrix forms, every matrix against zero, +-axes, single-lane, ones, dense, homogeneous point / direction, 2^-60 and 2^60 vectors through the 4 vector forms, vs the defining sums; these are the operands a guard would be keyed on and whose lattice weight exceeds the orders used above; non-trivial: both operands non-zero", true, false, |s| {
+        s.require_classes(&["zero", "identity", "scalar-matrix", "diagonal", "permutation", "single-entry", "all-equal", "triangular", "symmetric", "skew-symmetric", "affine-bottom-row", "affine-last-column", "rank-one", "dense", "near-identity", "tiny", "huge", "equal-operands", "transposed-pair",
+            "zero-vector", "axis-vector", "single-lane-vector", "ones-vector", "dense-vector", "homogeneous-point", "homogeneous-direction", "tiny-vector", "huge-vector"]);
+        structured_products::<2, rm::Mat2<X>, cm::Mat2<X>, Vec2<X>>(s);
+        structured_products::<3, rm::Mat3<X>, cm::Mat3<X>, Vec3<X>>(s);
+        structured_products::<4, rm::Mat4<X>, cm::Mat4<X>, Vec4<X>>(s);
+        s.sample(json!({"A": "3-cycle permutation matrix", "B": "dense with bottom row (0,0,0,1)", "forms_checked": 6, "law": "(A*B)(i,j) == sum_k A(i,k)*B(k,j)"}));
+    });
+
+    rep.section("products on lattice images on both sides of epsilon (2^-60 entries)",
+        "affine images 'tiny-huge' (first operand dense * 2^-60, second dense * 2^60) and 'tiny-tiny' (both * 2^-60) of L(2N^2, D) (D = 3/2/2 quick, 8/5/4 thorough), L(N^2+N, D) (D = 3 quick, 8/6/5 thorough; identity forms D = 3/2/2 quick, 5/4/3 thorough) and, for triple products, 'tiny-huge' (2^-60, 2^60, 2^-60) of L(3N^2, 2) (thorough 5/3/3): all 6 matrix*matrix forms, the 4 vector forms, the 22 chain forms, the identity forms of the three constructors; every entry lies below the exact type's epsilon() = default_epsilon() = 2^-52, which the 2^-40 maps above never reach (an 'is approximately zero' guard is invisible to them); non-trivial: operands non-zero", true, true, |s| {
+        s.require_classes(&["tiny-huge", "tiny-tiny"]);
+        let ex: &[usize] = &[5, 6];
+        mm_products_map::<2, rm::Mat2<X>, cm::Mat2<X>>(s, if th { 8 } else { 3 }, ex);
+        mm_products_map::<3, rm::Mat3<X>, cm::Mat3<X>>(s, if th { 5 } else { 2 }, ex);
+        mm_products_map::<4, rm::Mat4<X>, cm::Mat4<X>>(s, if th { 4 } else { 2 }, ex);
+        mv_products_map::<2, rm::Mat2<X>, cm::Mat2<X>, Vec2<X>>(s, if th { 8 } else { 3 }, ex);
+        mv_products_map::<3, rm::Mat3<X>, cm::Mat3<X>, Vec3<X>>(s, if th { 6 } else { 3 }, ex);
+        mv_products_map::<4, rm::Mat4<X>, cm::Mat4<X>, Vec4<X>>(s, if th { 5 } else { 3 }, ex);
+        seq_products::<2, rm::Mat2<X>, cm::Mat2<X>, Vec2<X>>(s, if th { 5 } else { 2 }, &[5]);
+        seq_products::<3, rm::Mat3<X>, cm::Mat3<X>, Vec3<X>>(s, if th { 3 } else { 2 }, &[5]);
+        seq_products::<4, rm::Mat4<X>, cm::Mat4<X>, Vec4<X>>(s, if th { 3 } else { 2 }, &[5]);
+        neutrality_ext::<2, rm::Mat2<X>, cm::Mat2<X>, Vec2<X>>(s, if th { 5 } else { 3 }, ex, &ids!(rm::Mat2<X>), &ids!(cm::Mat2<X>));
+        neutrality_ext::<3, rm::Mat3<X>, cm::Mat3<X>, Vec3<X>>(s, if th { 4 } else { 2 }, ex, &ids!(rm::Mat3<X>), &ids!(cm::Mat3<X>));
+        neutrality_ext::<4, rm::Mat4<X>, cm::Mat4<X>, Vec4<X>>(s, if th { 3 } else { 2 }, ex, &ids!(rm::Mat4<X>), &ids!(cm::Mat4<X>));
+        s.sample(json!({"map": "tiny-tiny", "A": "dense integers * 2^-60", "B": "dense integers * 2^-60", "law": "A*B == exact product (entries of size 2^-120), nothing is flushed to zero"}));
+    });
+
+    rep.section("element-wise and scalar operators on related operands; is_zero / is_one next to zero and identity",
+        "left operand: 2 dense, 1 fractional, 2^-60 * dense, 2^60 * dense (every entry non-zero); right operand DERIVED from it: the same matrix, its negation, its transpose, one entry doubled, one entry negated, twice the matrix, all ones, all minus ones (9 matrix forms incl. / and %); scalars derived from it: a_00, -a_00, a_(N-1,0), a_(N-1,N-1), +-2^-60, 2^60, 2 (10 scalar forms); each element vs op(a_ij, b_ij) / op(a_ij, s) (the value section above uses three fixed right operands, so `self == rhs`, `self == -rhs`, `a_ij == s` never hold there); Zero::is_zero and One::is_one on zero / identity with ONE entry changed by 2^-60, -2^-60, 1 (every position), diagonal entries 0 / -1, skew pairs, all ones, -identity; the same operators once more on free terms with both operands the SAME term matrix, a scalar that is one of its entries, and the constant scalars 0, 1, 2 (where `==`, is_zero(), is_one() are true on terms); all products with identical and with transposed term operands expanded to polynomials; non-trivial: all", true, false, |s| {
+        s.require_classes(&["dense", "fractional", "tiny", "huge", "equal-operands", "negated-operand", "transposed-operand", "one-entry-apart", "doubled-operand", "all-ones-operand",
+            "scalar-equals-entry", "scalar-equals-negated-entry", "scalar-below-epsilon", "scalar-2^60", "scalar-two", "exact-zero", "exact-identity", "zero-plus-one-entry", "identity-plus-one-entry", "identity-diagonal-entry-changed", "identity-plus-skew-pair"]);
+        ew_relational::<2, rm::Mat2<X>>(s, "row", |a, b| a.mul_memberwise(b)); ew_relational::<2, cm::Mat2<X>>(s, "col", |a, b| a.mul_memberwise(b));
+        ew_relational::<3, rm::Mat3<X>>(s, "row", |a, b| a.mul_memberwise(b)); ew_relational::<3, cm::Mat3<X>>(s, "col", |a, b| a.mul_memberwise(b));
+        ew_relational::<4, rm::Mat4<X>>(s, "row", |a, b| a.mul_memberwise(b)); ew_relational::<4, cm::Mat4<X>>(s, "col", |a, b| a.mul_memberwise(b));
+        elementwise_equal!(s, 2, rm::Mat2<Term>, "row"); elementwise_equal!(s, 2, cm::Mat2<Term>, "col");
+        elementwise_equal!(s, 3, rm::Mat3<Term>, "row"); elementwise_equal!(s, 3, cm::Mat3<Term>, "col");
+        elementwise_equal!(s, 4, rm::Mat4<Term>, "row"); elementwise_equal!(s, 4, cm::Mat4<Term>, "col");
+        sym_squares::<2, rm::Mat2<Term>, cm::Mat2<Term>>(s); sym_squares::<3, rm::Mat3<Term>, cm::Mat3<Term>>(s); sym_squares::<4, rm::Mat4<Term>, cm::Mat4<Term>>(s);
+        s.sample(json!({"A": "[[3,-2],[5,-7]]", "B": "the same matrix", "law": "(A / B)[i][j] == 1 in EVERY position (not the identity matrix), (A % B) == 0, (A - B) == 0"}));
+    });
+
+    rep.section("scalar and element-wise operators at the primitive element types",
+        "the 9 matrix forms (+ - / % mul_memberwise and the four assign twins) and the 10 scalar forms (+ - * / % and twins) of each of the 6 matrix types at i8, i16, i32, i64, i128, isize, u8, u16, u32, u64, u128, usize, f32, f64, Wrapping<i32>, Wrapping<u8>; neg at the signed ones; 2 left operands (|entries| 8..=11), right operands: 3 with |entries| 1..=7 and the left operand itself; scalars 1, 2, 3, 7 (-1, -2, -3 if signed); floats: the same integers * 1.1 (inexact quotients on purpose), Wrapping: integers * 17 / * 0x01010101 (products wrap); no result leaves the type (<= 121); oracle: the element type's OWN operator applied per element (integer division truncates, % keeps the dividend's sign, IEEE rounding for floats): `m / s` by reciprocal-multiply, or any other rewrite that is the identity over the rationals, differs here; non-trivial: all", true, false, |s| {
+        let names = ["i8", "i16", "i32", "i64", "i128", "isize", "u8", "u16", "u32", "u64", "u128", "usize", "f32", "f64", "Wrapping<i32>", "Wrapping<u8>"];
+        s.require_classes(&names);
+        macro_rules! ewp { ($T:ty, $name:expr, $signed:expr, $mk:expr) => {{
+            let mk = $mk;
+            ew_prim::<$T, 2, rm::Mat2<$T>>(s, $name, "row", $signed, &mk, |a, b| a.mul_memberwise(b)); ew_prim::<$T, 2, cm::Mat2<$T>>(s, $name, "col", $signed, &mk, |a, b| a.mul_memberwise(b));
+            ew_prim::<$T, 3, rm::Mat3<$T>>(s, $name, "row", $signed, &mk, |a, b| a.mul_memberwise(b)); ew_prim::<$T, 3, cm::Mat3<$T>>(s, $name, "col", $signed, &mk, |a, b| a.mul_memberwise(b));
+            ew_prim::<$T, 4, rm::Mat4<$T>>(s, $name, "row", $signed, &mk, |a, b| a.mul_memberwise(b)); ew_prim::<$T, 4, cm::Mat4<$T>>(s, $name, "col", $signed, &mk, |a, b| a.mul_memberwise(b));
+            s.class($name);
+        }} }
+        macro_rules! negp { ($T:ty, $name:expr, $mk:expr) => {{
+            let mk = $mk;
+            neg_prim::<$T, 2, rm::Mat2<$T>>(s, $name, "row", &mk); neg_prim::<$T, 2, cm::Mat2<$T>>(s, $name, "col", &mk);
+            neg_prim::<$T, 3, rm::Mat3<$T>>(s, $name, "row", &mk); neg_prim::<$T, 3, cm::Mat3<$T>>(s, $name, "col", &mk);
+            neg_prim::<$T, 4, rm::Mat4<$T>>(s, $name, "row", &mk); neg_prim::<$T, 4, cm::Mat4<$T>>(s, $name, "col", &mk);
+        }} }
+        ewp!(i8, "i8", true, |v: i32| v as i8); ewp!(i16, "i16", true, |v: i32| v as i16); ewp!(i32, "i32", true, |v: i32| v); ewp!(i64, "i64", true, |v: i32| v as i64);
+        ewp!(i128, "i128", true, |v: i32| v as i128); ewp!(isize, "isize", true, |v: i32| v as isize);
+        ewp!(u8, "u8", false, |v: i32| v as u8); ewp!(u16, "u16", false, |v: i32| v as u16); ewp!(u32, "u32", false, |v: i32| v as u32); ewp!(u64, "u64", false, |v: i32| v as u64);
+        ewp!(u128, "u128", false, |v: i32| v as u128); ewp!(usize, "usize", false, |v: i32| v as usize);
+        ewp!(f32, "f32", true, |v: i32| v as f32 * 1.1f32); ewp!(f64, "f64", true, |v: i32| v as f64 * 1.1f64);
+        ewp!(Wrapping<i32>, "Wrapping<i32>", true, |v: i32| Wrapping(v.wrapping_mul(0x0101_0101))); ewp!(Wrapping<u8>, "Wrapping<u8>", false, |v: i32| Wrapping((v * 17) as u8));
+        negp!(i8, "i8", |v: i32| v as i8); negp!(i16, "i16", |v: i32| v as i16); negp!(i32, "i32", |v: i32| v); negp!(i64, "i64", |v: i32| v as i64); negp!(i128, "i128", |v: i32| v as i128); negp!(isize, "isize", |v: i32| v as isize);
+        negp!(f32, "f32", |v: i32| v as f32 * 1.1f32); negp!(f64, "f64", |v: i32| v as f64 * 1.1f64); negp!(Wrapping<i32>, "Wrapping<i32>", |v: i32| Wrapping(v.wrapping_mul(0x0101_0101)));
+        s.sample(json!({"T": "i32", "A": "[[9,-11],[8,-10]]", "scalar": 2, "law": "(A / 2)[i][j] == A[i][j] / 2 in i32 arithmetic (4, -5, 4, -5), not A[i][j] * (1 / 2) == 0"}));
+    });
+
+    rep.section("products at the remaining primitive types, at the type bounds, and over the float range",
+        "(a) the 10 product forms at i8, u16, i128, u128, isize, usize on integer images of L(2N^2, D) (D = 3/2/2 quick, 4/3/3 thorough; |entries| <= 5 for i8); (b) results AT the type bound for u8, i8, u16, i16, u32, i32, u64, i64: A has a, c in one row, B has b, d in one column with a*b + c*d = MAX (resp. MIN), same signs, all other entries 0, every position (i, j, k1 < k2): each defining product and each partial sum in any order lies between 0 and the bound, so the defining sums cannot overflow (overflow checks are on in this build) and (A*B)(i,j), (A*v)(i), (v*B)(j) must equal the bound; cases whose other entries would leave the type are skipped; (c) f32 / f64 with uniform power-of-two operand scalings (55,55), (-63,-63), (-70,-70), (55,-70) resp. (500,500), (-511,-511), (-530,-530), (500,-530): entries up to 2^59, results up to 2^120 (2^1010), down to the smallest normal and into the subnormals (2^-140 * k, 2^-1060 * k), each operand's squared length and the result representable, every intermediate exact -> bit-for-bit; non-trivial: all", true, false, |s| {
+        s.require_classes(&["i8", "u16", "i128", "u128", "isize", "usize", "u8", "i16", "u32", "i32", "u64", "i64", "f32", "f64"]);
+        let (d2, d3, d4) = if th { (4, 3, 3) } else { (3, 2, 2) };
+        let small = |idx: usize, v: i64| -> i128 { ([1, -1, 2, -2, 1][idx % 5] + [-1, 1, -1, 1][idx % 4] * v) as i128 };
+        let sdense = |idx: usize, v: i64| -> i128 { dense_i(idx, v) as i128 };
+        let udense = |idx: usize, v: i64| -> i128 { (v + ((idx * 5 + idx / 3) % 3) as i64) as i128 };
+        macro_rules! primi { ($T:ty, $name:expr, $img:expr) => {
+            prim_products_img::<2, $T, rm::Mat2<$T>, cm::Mat2<$T>, Vec2<$T>>(s, d2, $name, &$img, &|v: i128| v as $T);
+            prim_products_img::<3, $T, rm::Mat3<$T>, cm::Mat3<$T>, Vec3<$T>>(s, d3, $name, &$img, &|v: i128| v as $T);
+            prim_products_img::<4, $T, rm::Mat4<$T>, cm::Mat4<$T>, Vec4<$T>>(s, d4, $name, &$img, &|v: i128| v as $T);
+        } }
+        primi!(i8, "i8", small); primi!(u16, "u16", udense); primi!(i128, "i128", sdense); primi!(u128, "u128", udense); primi!(isize, "isize", sdense); primi!(usize, "usize", udense);
+        macro_rules! bound { ($T:ty, $name:expr) => {{
+            let (lo, hi) = (<$T>::MIN as i128, <$T>::MAX as i128);
+            // MAX = a*b + 1*1 with a*b = MAX - 1 (even): a = 2; and MAX = (MAX - 6) * 1 + 2 * 3; MIN = (MIN/2)*1 + (MIN/2)*1 = (MIN/4)*2 + (MIN/2)*1
+            let mut cases: Vec<(i128, i128, i128, i128)> = vec![(2, (hi - 1) / 2, 1, 1), ((hi - 1) / 2, 2, 1, 1), (hi - 6, 1, 2, 3), (1, hi - 6, 3, 2), (hi, 1, 0, 0), (1, hi, 0, 0)];
+            if lo < 0 { cases.extend([(lo / 2, 1, lo / 2, 1), (1, lo / 2, 1, lo / 2), (lo / 4, 2, 1, lo / 2), (lo, 1, 0, 0)]); }
+            for c in &cases { assert!(c.0 * c.1 + c.2 * c.3 == hi || c.0 * c.1 + c.2 * c.3 == lo); }
+            prim_bounds::<2, $T, rm::Mat2<$T>, cm::Mat2<$T>, Vec2<$T>>(s, $name, &cases, (lo, hi), &|v: i128| v as $T);
+            prim_bounds::<3, $T, rm::Mat3<$T>, cm::Mat3<$T>, Vec3<$T>>(s, $name, &cases, (lo, hi), &|v: i128| v as $T);
+            prim_bounds::<4, $T, rm::Mat4<$T>, cm::Mat4<$T>, Vec4<$T>>(s, $name, &cases, (lo, hi), &|v: i128| v as $T);
+        }} }
+        bound!(u8, "u8"); bound!(i8, "i8"); bound!(u16, "u16"); bound!(i16, "i16"); bound!(u32, "u32"); bound!(i32, "i32"); bound!(u64, "u64"); bound!(i64, "i64");
+        let sc32: &[(i32, i32)] = &[(55, 55), (-63, -63), (-70, -70), (55, -70)];
+        let sc64: &[(i32, i32)] = &[(500, 500), (-511, -511), (-530, -530), (500, -530)];
+        prim_products::<2, f32, rm::Mat2<f32>, cm::Mat2<f32>, Vec2<f32>>(s, d2, "f32", true, &|v: i128, e: i32| ld32(v, e), sc32);
+        prim_products::<3, f32, rm::Mat3<f32>, cm::Mat3<f32>, Vec3<f32>>(s, d3, "f32", true, &|v: i128, e: i32| ld32(v, e), sc32);
+        prim_products::<4, f32, rm::Mat4<f32>, cm::Mat4<f32>, Vec4<f32>>(s, d4, "f32", true, &|v: i128, e: i32| ld32(v, e), sc32);
+        prim_products::<2, f64, rm::Mat2<f64>, cm::Mat2<f64>, Vec2<f64>>(s, d2, "f64", true, &|v: i128, e: i32| ld64(v, e), sc64);
+        prim_products::<3, f64, rm::Mat3<f64>, cm::Mat3<f64>, Vec3<f64>>(s, d3, "f64", true, &|v: i128, e: i32| ld64(v, e), sc64);
+        prim_products::<4, f64, rm::Mat4<f64>, cm::Mat4<f64>, Vec4<f64>>(s, d4, "f64", true, &|v: i128, e: i32| ld64(v, e), sc64);
+        s.sample(json!({"T": "u8", "A": "[[2,1],[0,0]]", "B": "[[127,0],[1,0]]", "law": "(A*B)[0][0] == 2*127 + 1*1 == 255 == u8::MAX without overflow, in all 10 forms"}));
+    });
+
+    rep.section("Vec4-as-2x2 helpers: structured and related operands, 2^-60 lattice images, remaining primitive types",
+        "the six helpers (and the differential of the two plain ones against the real Mat2 products) on every ordered pair of the N=2 structured matrices read as Vec4 (equal operands included), on every structured a with b = adj(a) (A*adj(A) = det*I) and b = a^T, on the 'tiny-huge' and 'tiny-tiny' images of L(8, D) (D = 4 quick / 6 thorough); all six at i8, i16, i128, isize and the two plain products at u8, u16, u32, u64, usize (the adjugate forms subtract: negative results do not exist there) on integer images of L(8, 3) / L(8, 5); f32 / f64 with the scalings of the section above; non-trivial: both operands non-zero", true, false, |s| {
+        s.require_classes(&["structured-pair", "equal-operands", "adjugate-operand", "transposed-operand", "tiny-huge", "tiny-tiny", "i8", "i16", "i128", "isize", "u8", "u16", "u32", "u64", "usize", "f32", "f64"]);
+        let ms = structured::<2>();
+        let flat = |m: &A<X, 2>| [m[0][0], m[0][1], m[1][0], m[1][1]];
+        for (ma, _) in &ms {
+            let a = flat(ma);
+            for (mb, _) in &ms { let b = flat(mb); s.class(if a == b { "equal-operands" } else { "structured-pair" }); vec4_pair(s, &a, &b, "structured pair", support(ma) + support(mb)); }
+            vec4_pair(s, &a, &[a[3], -a[1], -a[2], a[0]], "b = adjugate of a (rows)", 2 * support(ma)); s.class("adjugate-operand");
+            vec4_pair(s, &a, &[a[3], -a[2], -a[1], a[0]], "b = adjugate of a (cols)", 2 * support(ma)); s.class("adjugate-operand");
+            vec4_pair(s, &a, &[a[0], a[2], a[1], a[3]], "b = transpose of a", 2 * support(ma)); s.class("transposed-operand");
+        }
+        let d = if th { 6 } else { 4 };
+        for map in 5..7usize {
+            par_lattice_bal(8, d, |p| { let (a, b) = (vecm::<4>(map, &p[..4], 0, 0), vecm::<4>(map, &p[4..], 4, 1)); vec4_pair(s, &a, &b, MAPN[map], p.iter().sum::<i64>() as u64); });
+            s.class_n(MAPN[map], lattice_count(8, d) as u64);
+        }
+        let dp = if th { 5 } else { 3 };
+        let small = |idx: usize, v: i64| -> i128 { ([1, -1, 2, -2, 1][idx % 5] + [-1, 1, -1, 1][idx % 4] * v) as i128 };
+        let sdense = |idx: usize, v: i64| -> i128 { dense_i(idx, v) as i128 };
+        let udense = |idx: usize, v: i64| -> i128 { (v + ((idx * 5 + idx / 3) % 3) as i64) as i128 };
+        vec4_prim_img::<i8>(s, dp, "i8", false, &small, &|v: i128| v as i8); vec4_prim_img::<i16>(s, dp, "i16", false, &sdense, &|v: i128| v as i16);
+        vec4_prim_img::<i128>(s, dp, "i128", false, &sdense, &|v: i128| v); vec4_prim_img::<isize>(s, dp, "isize", false, &sdense, &|v: i128| v as isize);
+        vec4_prim_img::<u8>(s, dp, "u8", true, &udense, &|v: i128| v as u8); vec4_prim_img::<u16>(s, dp, "u16", true, &udense, &|v: i128| v as u16);
+        vec4_prim_img::<u32>(s, dp, "u32", true, &udense, &|v: i128| v as u32); vec4_prim_img::<u64>(s, dp, "u64", true, &udense, &|v: i128| v as u64);
+        vec4_prim_img::<usize>(s, dp, "usize", true, &udense, &|v: i128| v as usize);
+        vec4_prim::<f32>(s, dp, "f32", &|v: i128, e: i32| ld32(v, e), &[(55, 55), (-63, -63), (-70, -70), (55, -70)]);
+        vec4_prim::<f64>(s, dp, "f64", &|v: i128, e: i32| ld64(v, e), &[(500, 500), (-511, -511), (-530, -530), (500, -530)]);
+        s.sample(json!({"a": "[3,-2,5,-7]", "b": "the same vector", "law": "a.mat2_rows_mul_adj(a) == [det,0,0,det] with det = 3*(-7) - (-2)*5 = -11"}));
     });
     std::process::exit(rep.finish());
 }
